@@ -461,6 +461,9 @@ def _wrap(item):
     import traceback
     tb = traceback.format_exc().splitlines()
     case = item.get('case') or item['cases'][0]
+    if not common.library_raised(ex):      # raised by the harness itself: machinery, not a verdict
+      return [{'case': case, 'kind': item['kind'], 'sig': common.HARNESS_ERROR,
+               'detail': f'replay harness raised {type(ex).__name__}: {str(ex)[:300]} | ' + ' / '.join(tb[-8:])[:1200]}]
     return [{'case': case, 'kind': item['kind'], 'sig': f'{item["kind"]}:exception:{type(ex).__name__}',
              'detail': f'code raised {type(ex).__name__}: {str(ex)[:300]} | ' + ' / '.join(tb[-6:])[:600]}]
 
